@@ -97,6 +97,13 @@ def name_patterns(tier='quick', alpha='ab.'):
     for k in '@?*+':
         for alts in (((L('a'),), (star,)), ((L('a'),), (q,)), ((star,), (L('.'), L('a'))), ((L('b'),), (('br', False, (('ch', 'a'), ('ch', '.'))),))):
             pats += [(L('a'), ('ext', k, alts)), (L('.'), ('ext', k, alts)), (L('a'), ('ext', k, alts), L('b'))]
+    # `/` is an ordinary character in file-name mode (one written slash is exactly one slash)
+    sl = L('/')
+    pats += [(L('a'), sl, L('b')), (q, sl, L('b')), (sl, L('a')), (L('a'), sl), (L('a'), sl, sl, L('b')), (star, sl, star), (('ext', '@', ((L('a'),), (L('b'),))), sl, L('c')),
+             (('br', False, (('ch', 'a'), ('ch', '/'))), L('b'))]
+    # groups whose last alternative is longer than one character (a quantifier bound to the last atom only shows there)
+    for k in '?*+@':
+        pats += [(L('x'), ('ext', k, ((L('a'), L('b')),))), (('ext', k, ((L('a'), L('b')), (L('b'), L('a'), L('.')))), L('a')), (L('a'), ('ext', k, ((L('b'), ('ext', '+', ((L('a'), L('b')),))),)), L('.'))]
     pats += degraded()
     pats += [d + (L('b'),) for d in degraded()[:6]] + [(L('a'),) + d for d in degraded()[:6]]
     if tier != 'quick':
